@@ -197,6 +197,116 @@ def scenario(pre: Preempt, where: str, offset: int, variant: str, raising: bool)
     return {'log': log, 'msgs': msgs, 'reached': reached}
 
 
+def xthread_task_case(pre: Preempt, offset: int, variant: str) -> dict:
+    """One `TaskDoneCallback` shared by tasks of two threads, each thread with its own event loop (what `ThreadTaskDoneCallback`
+    does in the child).  Thread A's task ends; A is parked before bytecode `offset` of `_callback`; in the gap thread B
+    registers a task (variant 'register') or B's registered task ends and is called back (variant 'complete'); A resumes.
+    Then close() is called: it must not return while a registered task is running, must return once all have ended, and every
+    registered task must have been called back exactly once."""
+    from nextline.utils.done_callback.task import TaskDoneCallback
+    called: list = []
+    lock = threading.Lock()
+    names: dict = {}
+    msgs: list[str] = []
+
+    def done(t: Any) -> None:
+        with lock:
+            called.append(names.get(t, '?'))
+    cb = TaskDoneCallback(done=done)
+    rel_b = threading.Event()
+    reg_b = threading.Event()
+    a_registered = threading.Event()
+    go_a = threading.Event()
+
+    def thread_a() -> None:
+        async def main() -> None:
+            async def work() -> None:
+                while not go_a.is_set():
+                    await asyncio.sleep(0.001)
+            t = asyncio.ensure_future(work())
+            names[t] = 'A'
+            cb.register(t)
+            a_registered.set()
+            await t
+            await asyncio.sleep(0.02)       # the done-callback is scheduled with call_soon
+        asyncio.run(main())
+
+    def thread_b() -> None:
+        async def main() -> None:
+            async def work() -> None:
+                while not rel_b.is_set():
+                    await asyncio.sleep(0.001)
+            t = asyncio.ensure_future(work())
+            names[t] = 'B'
+            if variant == 'complete':
+                cb.register(t)
+                reg_b.set()
+            else:
+                for _ in range(3000):
+                    if pre.at_point.is_set() or go_b.is_set():
+                        break
+                    await asyncio.sleep(0.001)
+                cb.register(t)
+                reg_b.set()
+            await t
+            await asyncio.sleep(0.02)
+        asyncio.run(main())
+    go_b = threading.Event()
+    tb = threading.Thread(target=thread_b, name='nlv-B')
+    ta = threading.Thread(target=thread_a, name='nlv-A')
+    tb.start()
+    if variant == 'complete':
+        reg_b.wait(5)
+    ta.start()
+    a_registered.wait(5)
+    pre.watch(TaskDoneCallback._callback.__code__, offset)
+    pre.armed.set()
+    go_a.set()
+    reached = pre.at_point.wait(1.0)
+    if not reached:
+        go_b.set()
+    if variant == 'complete':
+        rel_b.set()                      # B's task ends and is called back while A is parked
+        for _ in range(400):
+            with lock:
+                if 'B' in called:
+                    break
+            time.sleep(0.005)
+    else:
+        reg_b.wait(5)
+    pre.resume.set()
+    ta.join(10)
+    # close() from a fresh thread
+    closed = threading.Event()
+    err: list = []
+
+    def closer() -> None:
+        try:
+            cb.close()
+        except BaseException as e:  # noqa
+            err.append(f'{type(e).__name__}: {e}')
+        closed.set()
+    tc = threading.Thread(target=closer, name='nlv-closer', daemon=True)
+    tc.start()
+    if variant == 'register':
+        if closed.wait(0.25):
+            msgs.append("close() returned while a registered task (registered from another thread during A's callback) was still running")
+        rel_b.set()
+    if not closed.wait(6):
+        msgs.append('close() did not return although every registered task has ended and been called back' if sorted(called) == ['A', 'B']
+                    else f'close() did not return (callbacks so far: {sorted(called)})')
+        cb._active.clear()               # let the closer thread go
+    rel_b.set()
+    tb.join(10)
+    if err:
+        msgs.append(f'close() raised {err[0]}')
+    with lock:
+        for nm in ('A', 'B'):
+            if called.count(nm) != 1:
+                msgs.append(f'the callback of task {nm} ran {called.count(nm)} times')
+    return {'msgs': msgs, 'reached': reached}
+
+
 def lines_of(log: list[str], raising: bool) -> list[str]:
     return [f"threads {'1' if raising else '-'}"] + ['obs ' + l for l in log]
 
@@ -279,6 +389,21 @@ def task_case(seed: int) -> dict:
     return {'log': log, 'msgs': msgs, 'schedule': chooser.trace}
 
 
+def _xshard(cases: list) -> list:
+    pre = Preempt()
+    out = []
+    try:
+        for off, variant in cases:
+            try:
+                r = xthread_task_case(pre, off, variant)
+                out.append((off, variant, r['msgs'], r['reached'], None))
+            except BaseException as e:  # noqa
+                out.append((off, variant, [], False, f'{type(e).__name__}: {e}'))
+    finally:
+        pre.close()
+    return out
+
+
 def _tshard(seeds: list) -> list:
     out = []
     for s in seeds:
@@ -292,7 +417,8 @@ def run(chk: common.Check) -> None:
     chk.cov.rule = ('for every bytecode offset of ThreadDoneCallback._monitor (monitor parked there after a dead registered thread exists) and of '
                     'register (registering thread parked there): a second thread registers / ends in the gap, then both end and close() is called; '
                     '× {callback raises or not} × {second thread dies in the gap or after}. TaskDoneCallback: ≤ 4 tasks, random completion and '
-                    'registration points (incl. double registration) under the permuting loop. Observed label sequences are checked for '
+                    'registration points (incl. double registration) under the permuting loop; and one TaskDoneCallback shared by tasks of two threads with their '
+                    'own event loops, thread A parked before every bytecode of _callback while thread B registers / is called back. Observed label sequences are checked for '
                     'acceptance by the Lean LTS. Non-trivial: the preemption point was actually reached; distinct = distinct (point, variant).')
     chk.assumptions += ['preemption is forced only before the chosen bytecode; other GIL switch points are whatever CPython produces',
                         'registrations precede close() (documented contract of close)']
@@ -321,6 +447,9 @@ def run(chk: common.Check) -> None:
     with mp.get_context('spawn').Pool(n) as pool:      # spawn: sys.monitoring state and threads must not be inherited
         res = pool.map(_shard, shards)
         tres = pool.map(_tshard, [tseeds[i::n] for i in range(n)])
+        from nextline.utils.done_callback.task import TaskDoneCallback
+        xcases = [(off, v) for off in offsets_of(TaskDoneCallback._callback) for v in ('register', 'complete')]
+        xres = pool.map(_xshard, [xcases[i::n] for i in range(n)])
     rows = []
     for sh in res:
         for i, lines, msgs, reached, err in sh:
@@ -356,6 +485,15 @@ def run(chk: common.Check) -> None:
             bad = [k for k, r in enumerate(mo) if r == 'n=0' or r == 'bad-op']
             if bad:
                 rejected.append((cfg, lines, bad[0]))
+    for sh in xres:
+        for off, variant, msgs, reached, err in sh:
+            if err:
+                raise RuntimeError(f'harness failure in cross-thread task case {(off, variant)}: {err}')
+            chk.cov.case(repr(('task-callback', off, variant)), trivial=not reached)
+            nreached += 1 if reached else 0
+            chk.cov.count('where', 'task-callback')
+            if msgs:
+                oracle_fail.append((('task-callback', off, variant, False), [], msgs))
     chk.cov.extra['preemption_points_reached'] = nreached
     chk.cov.extra['monitor_bytecode_offsets'] = len(mon_offs)
     chk.cov.extra['register_bytecode_offsets'] = len(reg_offs)
